@@ -193,7 +193,7 @@ theorem push_complete (ext : Ext) : ∀ (x : SVal), noRaw x = true → Comp ext 
       have ht := hg.tot
       simp only [total, Bool.and_eq_true] at ht
       simp only [room] at hr
-      obtain ⟨b', hb', hroom⟩ := record_complete hg ((pushStructEntries_appends ext es (noRawe_rawOK es hraw')).next _)
+      obtain ⟨b', hb', hroom⟩ := record_complete hg ((pushStructEntries_appends ext es).next _)
         (FieldsSkel.next (fun s1 s2 hp => pushStructEntries_takeRest ext es s1 s2 hp) _)
         ((pushStructEntries_complete ext es hraw').comp hkeys sfs ht.1) (by omega) hi
       exact ⟨b', by simp only [push, ctx_ok]; exact hb', by simp only [room]; omega⟩
